@@ -34,7 +34,7 @@ RULE = ("clouds of 6..24 pairwise distinct points (jittered lattice or uniform d
         "Coq checks: output shape = model broadcast shape of the query shapes and size; |variant - base| <= 1e3 * 2^-52 * "
         "kappa * max(|data|, |prediction|) for least-squares gridders (kappa from numpy SVD of the scaled, weighted, "
         "damped system; > 1e10 -> counted skip), <= 2^-40 x scale for KNeighbors / Linear (Cubic: its iterative "
-        "gradient solver stops at 1e-6, tolerance 2^-12 x scale under permutation); base KNeighbors predictions against the "
+        "gradient solver stops at 1e-6, tolerance 2^-10 x scale under permutation); base KNeighbors predictions against the "
         "Coq brute-force model (near ties excluded), base Trend coefficients against the C02 certificate on exact model "
         "monomials and base predictions against the model polynomial. Non-trivial = a variant that differs from the base "
         "in at least one argument; distinct = distinct (gridder, variant recipe, cloud).")
@@ -437,8 +437,8 @@ def pair_case(g, spec, variant, stream):
     shapes = "%s %s %s" % (nl(she), nl(shn), nl(var["shape"]))
     scale = data_scale(spec)
     if g.cubic and variant.get("perm") is not None:
-        # CloughTocher's iterative gradient estimation (tol 1e-6) depends on the vertex order: compare at 2^-12
-        scale = scale * 2.0 ** 28
+        # CloughTocher's iterative gradient estimation (tol 1e-6) depends on the vertex order: compare at 2^-10
+        scale = scale * 2.0 ** 30
     est = base["est"]
     if g.model and g.model[0] == "trend" and spec["ncomp"] == 1:
         w = spec["w"][0] if spec["w"] is not None else [1.0] * len(spec["e"])
